@@ -1147,6 +1147,13 @@ STATE_SWITCH:
                     if (data[pos] == CR) {
                         // We have a CR byte.
 
+                        // A CR set aside at the end of the previous chunk was not
+                        // followed by LF after all; release it as data.
+                        if (parser->cr_aside) {
+                            parser->handle_data(parser, (unsigned char *) &"\r", 1, /* not a line */ 0);
+                            parser->cr_aside = 0;
+                        }
+
                         // Is this CR the last byte in the input buffer?
                         if (pos + 1 == len) {
                             // We have CR as the last byte in input. We are going to process
